@@ -105,3 +105,14 @@ Example udp_delivers_nonvacuous :
   urun 0 100 unet0 (writes false [[250; 255; 54; 0; 203]%N; []] ++ [USleep] ++ reads true 4096 2) =
   [UWrote 5 None; UWrote 0 None; UNone; UGot [250; 255; 54; 0; 203]%N None; UGot [] None].
 Proof. reflexivity. Qed.
+
+(* what the hypothesis [length p <= buflen] of [udp_delivers] excludes (DESIGN 13.8): a read with less room than the
+   oldest datagram returns its head and the rest is gone - the next read finds the line empty *)
+Example udp_short_read_loses_the_tail :
+  urun 0 50 unet0 [UWrite false [1; 2; 3; 4; 5]%N; URead true 3; URead true 4096] =
+  [UWrote 5 None; UGot [1; 2; 3]%N None; UGot [] (Some 2)].
+Proof. reflexivity. Qed.
+Theorem udp_short_read_refuted : exists p buflen, (buflen < length p)%nat /\
+  urun 0 50 unet0 [UWrite false p; URead true buflen; URead true 4096] <>
+  [UWrote (Z.of_nat (length p)) None; UGot (firstn buflen p) None; UGot (skipn buflen p) None].
+Proof. exists [1; 2; 3; 4; 5]%N, 3%nat. split; [cbn; repeat constructor|]. cbn. discriminate. Qed.
